@@ -1,4 +1,5 @@
 import NunavutVerif.Lemmas.Tpl
+import NunavutVerif.Lemmas.FilePP
 import NunavutVerif.Gen.TplFlows
 /-!
 # C07 — reproducible output: a pure function of inputs, options and tool version
@@ -127,5 +128,63 @@ example : closedClean [.time] pyPickleBeforeFix [0] = false := by decide
 /-- Sorting really is needed and really works: two iteration orders of the same dependency set. -/
 example : sortStrs ["b.h".toList, "a.h".toList, "c.h".toList] = sortStrs ["c.h".toList, "b.h".toList, "a.h".toList] :=
   sortStrs_perm_invariant _ _ (by decide)
+
+/-! ### Outside the templates: the glue code and the external post-processing program -/
+
+/-- Nothing but the command line, the documented environment variables (`DSDL_INCLUDE_PATH`, `CYPHAL_PATH`) and the
+package itself is looked at by the command line, the runners, the language configuration, the generators and the
+post-processors: no path spelled as a string constant relative to the working directory (`Path("nunavut.yaml")`), no
+working / home directory, no other environment variable, no temporary-file name, no random source.  (Regenerated AST
+scan of the whole package, bundled third-party code excluded; a hit is listed by file and line in the replay.) -/
+theorem C07_no_undeclared_ambient_inputs_in_source : TplFlows.noUndeclaredAmbientInputs = true := by decide
+
+/-- `ExternalProgramEditInPlace.__call__` / `SetFileMode.__call__` / the command line's list builder are the statements
+`Model/FilePP.lean` was transcribed from, and no file post-processor writes object state. -/
+theorem C07_file_pp_model_matches_source :
+    TplFlows.filePPSourceMatchesModel = true ∧ TplFlows.filePPCallsPure = true ∧
+    TplFlows.generatorRunsFilePPsOnceInOrder = true := by decide
+
+section ExternalProgram
+open NunavutVerif.FilePP
+
+/-- Every invocation of the external program (`--pp-run-program`, `ExternalProgramEditInPlace`) for an output file is
+the configured command line followed by THE REAL PATH OF THAT OUTPUT FILE (`sys.executable` in front iff the program's
+name ends in `.py`): the program is never shown a scratch name, a time stamp or anything else that is not a declared
+input — so a deterministic program that uses the name it is given (include-guard fixer, banner script) is given the
+same name in every run.  For every list of built-in post-processors and every file. -/
+theorem C07_external_program_given_real_output_path (py : LineBuffer.Str) (ren : Nat → LineBuffer.Str → LineBuffer.Str)
+    (objs : List Obj) (hb : builtinOnly objs = true) (j : FilePP.Job) (argv : Argv) (chk : Bool)
+    (h : Event.exec argv chk ∈ (fileEvents (callReal py ren) objs j).1) :
+    argv.getLast? = some j.path ∧ ∀ a ∈ argv.dropLast, a = py ∨ a ∈ cfgArgs objs := by
+  have := fileEvents_builtin_events py ren (py :: cfgArgs objs) objs j hb
+    (by intro a ha; rcases ha with h | h <;> simp [h]) _ h
+  refine ⟨this.1, fun a ha => ?_⟩
+  simpa using this.2 a ha
+
+/-- The post-processed file (bytes and permission bits) is a function of the rendered text, the configured
+post-processors, the output path and what the program does with the files it is given: it is the same from any two
+file systems that agree on the file itself, the interpreter and the configured arguments — whatever else lies around
+(scratch files, other outputs, the working directory). -/
+theorem C07_post_processed_file_function_of_declared_inputs (prog : Prog) (ren : Nat → LineBuffer.Str → LineBuffer.Str)
+    (defMode : Nat) (py : LineBuffer.Str) (objs : List Obj) (hb : builtinOnly objs = true)
+    (hF : prog.EditsLastOnly (py :: cfgArgs objs)) (hL : prog.Local) (j : FilePP.Job) (fs₁ fs₂ : FS)
+    (hagree : ∀ q, (q = j.path ∨ q ∈ py :: cfgArgs objs) → fs₁.get q = fs₂.get q) :
+    (fileWorld prog ren defMode (callReal py ren) objs j fs₁).fs.get j.path =
+      (fileWorld prog ren defMode (callReal py ren) objs j fs₂).fs.get j.path ∧
+    (fileWorld prog ren defMode (callReal py ren) objs j fs₁).err =
+      (fileWorld prog ren defMode (callReal py ren) objs j fs₂).err := by
+  have hev := fileEvents_builtin_events py ren (py :: cfgArgs objs) objs j hb
+    (by intro a ha; rcases ha with h | h <;> simp [h])
+  have := interp_local prog ren defMode (py :: cfgArgs objs) hF hL (fileEvents (callReal py ren) objs j).1
+    ⟨fs₁, [], none⟩ ⟨fs₂, [], none⟩ j.path hev ⟨rfl, hagree⟩
+  exact ⟨this.2 j.path (Or.inl rfl), this.1⟩
+
+/-- What the theorem excludes: were the program run on a scratch copy with a name chosen at random, a program that
+writes the base name it is given into the file would produce other bytes for other random names (the model of such a
+call, `exec (cmd ++ [scratch])`, differs from the code's `exec (cmd ++ [output path])` in exactly the last argument). -/
+example : (fileEvents (callReal [] fun _ p => p) [.ext [['t']] true] ⟨.generate, ['o', '.', 'h'], [], true⟩).1 =
+    [.overwrite ['o', '.', 'h'] true, .write ['o', '.', 'h'] [] [], .exec [['t'], ['o', '.', 'h']] true] := by decide
+
+end ExternalProgram
 
 end NunavutVerif.C07
